@@ -216,6 +216,25 @@ class C14Interactions(Machine):
                 raise Violation("C14:cross-section-sum", "sigma_CC+sigma_NC=%r, total=%r at %r GeV"
                                 % (s + s_other, t, p.energy))
             self.count("probe.sigma_sum_checked")
+            # the same identities through the documented ``kind`` attribute of the live interaction
+            # (its cross section has just been read for the original kind)
+            original = it.kind
+            it.kind = other
+            try:
+                s_flip, t_flip = float(it.cross_section), float(it.total_cross_section)
+                l_flip = float(it.interaction_length)
+            finally:
+                it.kind = original
+            self.count("probe.kind_reassigned")
+            if abs(s_flip - s_other) > 1e-12 * t or abs(t_flip - t) > 1e-12 * t or \
+                    abs(l_flip - 1 / (NA * s_flip)) > 1e-12 / (NA * s_flip):
+                raise Violation("C14:cross-section-after-kind-change",
+                                "after setting kind=%s on an interaction whose cross section had been read: "
+                                "sigma=%r (a fresh particle of that kind has %r), total %r (was %r)"
+                                % (other, s_flip, s_other, t_flip, t))
+            if abs(float(it.cross_section) - s) > 1e-12 * t:
+                raise Violation("C14:cross-section-after-kind-change",
+                                "setting kind back to %s gives sigma=%r, it was %r" % (original.name, float(it.cross_section), s))
         if s > t * (1 + 1e-12):
             raise Violation("C14:cross-section-sum", "partial cross section exceeds the total")
 
@@ -313,6 +332,7 @@ class C14Trees(Machine):
         self.event = None
         self.parts = []      # model: insertion order
         self.parent = {}     # id(child) -> parent particle or None
+        self.older = None    # (event, parts, parent) of a previous event sharing a particle with this one
         self.serial = 0
 
     def _new_particle(self):
@@ -323,9 +343,10 @@ class C14Trees(Machine):
     def draw_op(self, rng):
         if self.event is None:
             return {"op": "new", "roots": rng.randint(1, 3), "as_list": rng.chance(0.7)}
-        k = rng.weighted([("add_children", 5.0), ("query", 2.0), ("bad_add", 0.7), ("new", 0.2)])
+        k = rng.weighted([("add_children", 5.0), ("query", 2.0), ("bad_add", 0.7), ("new", 0.3)])
         if k == "new":
-            return {"op": "new", "roots": rng.randint(1, 3), "as_list": rng.chance(0.7)}
+            return {"op": "new", "roots": rng.randint(1, 3), "as_list": rng.chance(0.7),
+                    "share": rng.randrange(8) if rng.chance(0.6) else None}
         if k == "add_children":
             return {"op": "add_children", "parent": rng.randrange(64), "n": rng.randint(1, 3),
                     "single": rng.chance(0.3)}
@@ -339,6 +360,19 @@ class C14Trees(Machine):
         self.count("op." + name)
         if name == "new":
             roots = [self._new_particle() for _ in range(op["roots"])]
+            shared = None
+            if op.get("share") is not None and self.event is not None:
+                # a particle that is a child in the previous event is a root of the new one
+                # (the previous event stays alive and is still queried)
+                kids = [p for p in self.parts if self.parent[id(p)] is not None]
+                if kids:
+                    shared = kids[op["share"] % len(kids)]
+                    roots[0] = shared
+                    self.older = (self.event, list(self.parts), dict(self.parent))
+                    self.count("probe.particle_in_two_events")
+                    self.nontrivial = True
+            if shared is None:
+                self.older = None
             arg = roots if (op["as_list"] or len(roots) > 1) else roots[0]
             st, ev = self.sut(P.Event, arg, where="Event()")
             self.event, self.parts = ev, list(roots)
@@ -380,6 +414,16 @@ class C14Trees(Machine):
         return d
 
     def _check(self):
+        self._check_one()
+        if self.older is not None:
+            cur = (self.event, self.parts, self.parent)
+            self.event, self.parts, self.parent = self.older
+            try:
+                self._check_one()
+            finally:
+                self.event, self.parts, self.parent = cur
+
+    def _check_one(self):
         ev = self.event
         st, seen = self.sut(lambda: list(ev), where="iter")
         if len(seen) != len(self.parts) or sorted(map(id, seen)) != sorted(map(id, self.parts)):
